@@ -100,6 +100,12 @@ func (m *Machine) replay() {
 				m.fail("C03", "job #%d is started a second time (seq %d)", j.AcceptIdx, e.Seq)
 			} else {
 				mon.startSeq[e.Job] = e.Seq
+				if j.Waited {
+					m.w.Stats.hit("dequeue-start")
+					if j.Bad != "" {
+						m.w.Stats.hit("bad-waited")
+					}
+				}
 			}
 			if j.CancelWhileWait && j.CancelAckedSeq < e.Seq {
 				m.fail("C04", "job #%d was canceled while waiting (ack at seq %d) and is started at seq %d", j.AcceptIdx, j.CancelAckedSeq, e.Seq)
@@ -163,6 +169,15 @@ func (m *Machine) replay() {
 			if !ok {
 				m.fail("C16", "job #%d runs task %s which its definition at accept time does not have", j.AcceptIdx, e.Task)
 				break
+			}
+			if len(j.Def.Tasks) >= 4 {
+				distinct := map[string]bool{}
+				for _, d := range td.DependsOn {
+					distinct[d] = true
+				}
+				if len(distinct) >= 2 {
+					m.w.Stats.hit("graph:fanin4")
+				}
 			}
 			for _, d := range td.DependsOn {
 				if d == e.Task {
